@@ -468,6 +468,8 @@ func c41REEval1(c c41RE) ([][]any, error) {
 		re:split &posix=$posix &longest=$longest &max=$max $pat $src
 		put $nil
 		re:find &posix=$posix &longest=$other &max=1 $pat $src `+c41FindCode+`
+		put $nil
+		re:find &posix=$posix &longest=$longest $pat $src `+c41FindCode+`
 	`)
 }
 
@@ -493,7 +495,7 @@ func c41CheckRE(c c41RE) error {
 		}
 		return nil
 	}
-	if len(g) != 7 || len(g[1]) != 1 || len(g[3]) != 3 || len(g[6]) > 1 {
+	if len(g) != 8 || len(g[1]) != 1 || len(g[3]) != 3 || len(g[6]) > 1 {
 		return fmt.Errorf("unexpected outputs %v\n%s", g, in)
 	}
 	ms, err := c41ReadMatches(g[0], c.Src)
@@ -589,6 +591,23 @@ func c41CheckRE(c c41RE) error {
 		}
 		if c.Posix && lo.c41Span != sh.c41Span {
 			return fmt.Errorf("&posix is leftmost-longest, but &longest changes the first match from [%d,%d) to [%d,%d)\n%s", sh.start, sh.end, lo.start, lo.end, in)
+		}
+	}
+	// the same re:find call again, after calls with the opposite &longest on the
+	// same pattern: the builtins must agree with one another on match positions
+	// whatever was called before
+	if len(g) > 7 {
+		again, err := c41ReadMatches(g[7], c.Src)
+		if err != nil {
+			return fmt.Errorf("re:find repeated: %v\n%s", err, in)
+		}
+		if len(again) != len(ms) {
+			return fmt.Errorf("re:find &longest=%v found %d matches, the same call after a call with &longest=%v on the same pattern finds %d\n%s", c.Longest, len(ms), !c.Longest, len(again), in)
+		}
+		for i := range ms {
+			if ms[i].c41Span != again[i].c41Span {
+				return fmt.Errorf("re:find &longest=%v: match %d was [%d,%d), the same call after a call with &longest=%v on the same pattern gives [%d,%d)\n%s", c.Longest, i, ms[i].start, ms[i].end, !c.Longest, again[i].start, again[i].end, in)
+			}
 		}
 	}
 	return nil
